@@ -10,6 +10,19 @@ import importlib
 from ..core import Result, Trace
 from ..models.reader_model import ReaderModel, ModelRuntimeError, ModelValueError
 
+
+class _Tile(int):
+    """An application's int subclass whose text form is not the integer's."""
+
+    def __str__(self):
+        return f"tile#{int(self)}"
+
+    __repr__ = __str__
+
+    def __format__(self, spec):
+        return f"tile#{int(self)}"
+
+
 ID = "C05"
 LEVEL = "exploration"
 BATCH = 400
@@ -34,7 +47,7 @@ COMPONENTS = {
 PROBES = [
     "chunked_on_after_passing_break", "next_chunk_at_end_of_data", "mode_toggle_with_cached_break",
     "slice_of_slice", "slice_in_chunked_parent", "overread_inside_integer_at_break",
-    "next_chunk_outside_chunked_mode", "slice_negative_argument", "next_chunk_moves_backwards",
+    "length_of_a_subclass_type", "next_chunk_outside_chunked_mode", "slice_negative_argument", "next_chunk_moves_backwards",
     "exhausted_read",
 ]
 FAULT_KINDS = ["end_of_chunk_mid_read", "end_of_data_mid_read"]
@@ -225,6 +238,10 @@ def execute(plan, env):
                     got = getattr(r, name)(length=args[0], padded=args[1])      # documented parameter names
                 elif step % 5 == 2 and name == "get_bytes":
                     got = r.get_bytes(length=args[0])
+                elif step % 9 == 4 and args and type(args[0]) is int:
+                    # the same length in another dress (bool / an int subclass with its own text form)
+                    got = getattr(r, name)(bool(args[0]) if args[0] in (0, 1) else _Tile(args[0]), *args[1:])
+                    res.count("probe.length_of_a_subclass_type")
                 else:
                     got = getattr(r, name)(*args)
                 if isinstance(got, (bytearray, memoryview)):
